@@ -93,17 +93,21 @@ theorem RxFacts.of {proj : Project} (h : reexportShape proj = true) : RxFacts pr
 
 theorem WFr.facts {proj : Project} {rank : List Nat} (h : WFr proj rank = true) : WFacts proj rank ∧ RxFacts proj := by
   simp only [WFr, Bool.and_eq_true] at h
-  obtain ⟨⟨⟨⟨⟨⟨⟨⟨⟨⟨⟨hmod, hpaths⟩, himp⟩, honce⟩, huniq⟩, hbne⟩, hns⟩, hroots⟩, hnames⟩, hshape⟩, _⟩, _⟩ := h
+  obtain ⟨⟨⟨⟨⟨⟨⟨⟨⟨⟨⟨⟨hmod, hpaths⟩, himp⟩, honce⟩, huniq⟩, hbne⟩, hns⟩, hroots⟩, hnames⟩, hshape⟩, _⟩, _⟩, _⟩ := h
   exact ⟨wfacts_of hmod hpaths himp honce huniq hbne hns hroots hnames, RxFacts.of hshape⟩
 
 theorem WFr.pkgFrom {proj : Project} {rank : List Nat} (h : WFr proj rank = true) : pkgFromOk proj rank = true := by
   simp only [WFr, Bool.and_eq_true] at h
-  exact h.1.2
+  exact h.1.1.2
+
+theorem WFr.above {proj : Project} {rank : List Nat} (h : WFr proj rank = true) : aboveOk proj rank = true := by
+  simp only [WFr, Bool.and_eq_true] at h
+  exact h.2
 
 theorem WFr.modNames {proj : Project} {rank : List Nat} (h : WFr proj rank = true) :
     ∀ m, m < proj.length → ∀ n ∈ pathOf proj m, isSupersededName n = false := by
   simp only [WFr, Bool.and_eq_true] at h
-  have h2 := h.2
+  have h2 := h.1.2
   intro m hm n hn
   unfold modNamesOk at h2
   have h3 := List.all_eq_true.1 h2 proj[m] (List.getElem_mem hm)
